@@ -151,7 +151,7 @@ CHECKS = {
              "exhaustively; each is written through `>>` and through a YAML front matter, parsed with the bundled, the empty "
              "and a renamed-units converter, and TLC judges the recorded warning flag and accessor results "
              "(spec/Trace_StdMeta.tla): reading as documented, out-of-form => warning and nothing, warning <=> nothing, "
-             "typed Metadata accessors agree, servings stored for scaling. A fourth converter whose minutes cannot be found under an English key while `m` is the metre, and documents with an out-of-form `time` next to valid prep / cook times, are part of the corpus.",
+             "typed Metadata accessors agree, servings stored for scaling. A fourth converter whose minutes cannot be found under an English key while `m` is the metre, and documents with an out-of-form `time` next to valid prep / cook times, are part of the corpus. spec/CookStdValue.tla transcribes the readers character by character (parse_time, locale, servings and tags strings); MC_StdValue enumerates every string over small alphabets up to 4 (thorough 5) characters with its specified reading.",
         design="6 (C13), 3.10", technique="TLA+ generator of documented metadata shapes with exact predictions + TLC enumeration + trace validation of accessors",
         note="Trusted: TLC; numbers travel as decimal strings; the renamed converter keeps `min` reachable (the reader looks "
              "minutes up under English keys - a converter renaming that too cannot read durations, recorded as an observation)."),
